@@ -66,6 +66,9 @@ def index_ok(kind, term, N):
             i, j = divmod(pos, N)
             want = [a for a, k in tat.items() if k == j][0]
             if bits[pos] != ('in', want, i):
+                b = bits[pos]
+                if isinstance(b, tuple) and b[0] == 'top' and not any(isinstance(d_[0], tuple) and d_[0] and d_[0][0] in ('poison', 'undef') for d_ in b[1]):
+                    return None, "index bit %d is computed by operations the bit-provenance domain does not model (data-dependent selection of masks or early exits)" % pos
                 return False, "index bit %d should be bit %d of t[%d], is %s" % (pos, i, j, str(bits[pos])[:80])
         for pos in range(dom * N, 64):
             b = bits[pos]
@@ -89,8 +92,38 @@ def check_lambda(rep, h):
         pre = ir.Sym(f, prefix_only=True)
         rc = [c for c in pre.calls if (c.name or "").startswith(relayout.RP2)]
         if not rc:
-            rep.fail("C05.b-hilbert", inst, file, "Hilbert index in the copy does not derive its side from round_pow2")
-            return
+            # the side may be computed once by the constructor and captured by value: the walk then starts from a field of
+            # the closure object, and the constructor must have stored round_pow2(max extent) into that field
+            lc = ir.Sym(f, cut_loops=True)
+            sc = ir.Sym(h.func)
+            closures = [c.n for c in sc.calls if c.name == "_Znwm"]
+
+            def resolve(t):
+                """value, in the constructor, of what the copy loads through its closure (captured values, captured references to locals)"""
+                if t[0] != 'ld' or t[1][0] != 'mem':
+                    return None
+                inner = t[1][1]
+                if inner[0] == 'ld' and inner[1] == ('arg', 0) and inner[2] == 0 and len(closures) == 1:
+                    base, off = ('ret', closures[0]), 0
+                else:
+                    p = resolve(inner)
+                    if p is None or p[0] != 'ptr' or not isinstance(p[2], int):
+                        return None
+                    base, off = p[1], p[2]
+                if base[0] == 'alloca':
+                    e = sc.mem.get(base[1], {}).get(off + t[2])
+                    return e[1] if e and e[0] == t[3] else None
+                hit = [st for st in sc.stores if st.base == base and st.off == off + t[2] and st.size == t[3] and st.cond == ir.TRUE]
+                return hit[-1].val if hit else None
+            sides = []
+            for i in lc.iv.values():
+                v = resolve(i["init"]) if i["init"][0] == 'ld' and i["init"][1][0] == 'mem' else None
+                if isinstance(v, tuple) and v[0] == 'call' and (v[1] or "").startswith(relayout.RP2):
+                    sides.append(v)
+            if len(set(sides)) != 1:
+                rep.undecided("C05.b-hilbert %s: the copy's Hilbert side comes neither from a round_pow2 call in the copy nor from a value the constructor computed with round_pow2 and handed to the copy through its closure; not decided" % inst)
+                return
+            rc = [c for c in sc.calls if c.n == sides[0][2]]
         good = True
         for c in rc:
             cmpops = set()
@@ -134,7 +167,16 @@ def check_lambda(rep, h):
         if st.base == v[1]:
             why = "source and destination buffers are the same object"
     if why is None and (len(dsts) != 1 or len(srcs) != 1):
-        why = "components of one element are copied between different positions"
+        # the position may be computed once per component: the computations must be the same map, which structural
+        # equality decides only when the optimiser merged them; otherwise each one is judged against the layer's map
+        verdicts = [index_ok(m["dst"], d_, N) for d_ in dsts] + [index_ok(m["src"], s_, N) for s_ in srcs]
+        if all(v[0] for v in verdicts):
+            dsts, srcs = {next(iter(dsts))}, {next(iter(srcs))}
+        elif any(v[0] is False for v in verdicts):
+            why = "components of one element are copied between different positions (%s)" % next(v[1] for v in verdicts if v[0] is False)[:120]
+        else:
+            rep.undecided("C05.b %s: the position is computed separately per component in a form that cannot be compared (%s); not decided" % (inst, next(v[1] for v in verdicts if not v[0])[:120]))
+            return
     if why:
         rep.fail("C05.b", inst, file, why)
         return
@@ -142,7 +184,9 @@ def check_lambda(rep, h):
         d, s_ = next(iter(dsts)), next(iter(srcs))
         okd, whyd = index_ok(m["dst"], d, N)
         oks, whys = index_ok(m["src"], s_, N)
-        if not okd:
+        if okd is None or (okd and oks is None):
+            rep.undecided("C05.b %s: %s; cannot decide - re-confirm by reading" % (inst, whyd if okd is None else whys))
+        elif not okd:
             rep.fail("C05.b", inst, file, "destination position of the copy is not the %s layer's index map: %s" % (m["dst"], whyd))
         elif not oks:
             rep.fail("C05.b", inst, relayout.FILES[m["src"].split("_")[0]], "source position of the copy is not the %s layer's index map: %s" % (m["src"], whys))
